@@ -481,7 +481,17 @@ func (nc *nilCtx) callResultMayBeNil(v ssa.Value, c *ssa.Call, idx int) bool {
 					continue
 				}
 				if !isNilConst(ret.Results[errIdx]) && isNilConst(o) {
-					continue
+					// ... unless the error returned with it is known to be nil at this return (`if err == nil { return nil, err }`)
+					errNil := false
+					ep := cx.Fx.path(ret.Results[errIdx])
+					for _, a := range cx.Fx.AtomsAt(ret) {
+						if a.Op == "NIL" && !a.Neg && a.A == ep {
+							errNil = true
+						}
+					}
+					if !errNil {
+						continue
+					}
 				}
 			}
 			if !nc.mayBeNil(o) {
@@ -753,6 +763,105 @@ func (nc *nilCtx) checkChainAssignments(r *Report) {
 	}
 }
 
+// checkConstructedNonNil (R-NIL-INV): pointer fields the constructors fill in conditionally (a default when the
+// configuration leaves something out: the two page templates, MetadataIDPConfig) are dereferenced by the handlers
+// without a test. On every path on which NewIdentityProvider / NewProvider returns a provider, the value such a
+// field holds at the return must be known non-nil: a fresh object, the result of a library constructor whose error
+// was found nil, or a configured value found non-nil on that path.
+func (cx *Ctx) checkConstructedNonNil(r *Report) {
+	w, fx := cx.W, cx.Fx
+	for _, ck := range []string{"provider.NewIdentityProvider", "provider.NewProvider"} {
+		fn := w.Func(ck)
+		if fn == nil {
+			r.Fail("R-NIL-INV", ck, "", "anchor not found")
+			continue
+		}
+		aps, ok := fx.atomPaths(fn, 8192)
+		if !ok {
+			r.Undecided("R-NIL-INV", ck, w.FnPos(fn), "too many paths")
+			continue
+		}
+		type grp struct{ base, field string }
+		groups := map[grp]bool{}
+		for _, st := range fx.info(fn).stores {
+			fa, isFA := st.Addr.(*ssa.FieldAddr)
+			if !isFA || !isPtrLike(st.Val.Type()) {
+				continue
+			}
+			if _, isSig := st.Val.Type().Underlying().(*types.Signature); isSig {
+				continue
+			}
+			groups[grp{fx.path(fa.X), fname(fieldVar(fa.X.Type(), fa.Field))}] = true
+		}
+		var gs []grp
+		for g := range groups {
+			gs = append(gs, g)
+		}
+		sort.Slice(gs, func(i, j int) bool { return gs[i].base+gs[i].field < gs[j].base+gs[j].field })
+		for _, g := range gs {
+			bad := ""
+			nSucc := 0
+			conditional := false
+			for i := range aps {
+				p := &aps[i]
+				if p.Ret == nil || len(p.Ret.Results) == 0 || isNilConst(fx.retVal(p, 0)) {
+					continue
+				}
+				nSucc++
+				var last ssa.Value
+				nStores := 0
+				for _, in := range p.Instrs() {
+					st, isSt := in.(*ssa.Store)
+					if !isSt {
+						continue
+					}
+					fa, isFA := st.Addr.(*ssa.FieldAddr)
+					if isFA && fx.path(fa.X) == g.base && fname(fieldVar(fa.X.Type(), fa.Field)) == g.field {
+						last = st.Val
+						nStores++
+					}
+				}
+				if nStores != 1 {
+					conditional = true
+				}
+				nonNilPath := func(q string) bool {
+					for _, a := range p.Atoms {
+						if a.Op == "NIL" && a.Neg && a.A == q {
+							return true
+						}
+					}
+					return false
+				}
+				okV := false
+				switch v := last.(type) {
+				case nil:
+					// not assigned on this path: what the caller's object holds must have been found non-nil
+					okV = nonNilPath(g.base + "." + g.field)
+				case *ssa.Alloc, *ssa.MakeInterface, *ssa.MakeMap, *ssa.MakeClosure, *ssa.Parameter, *ssa.FieldAddr, *ssa.IndexAddr:
+					okV = true
+				case *ssa.Extract:
+					okV = true // result of a call handed out together with an error the path found nil (R-ERR)
+				case *ssa.Call:
+					okV = true
+				case *ssa.UnOp:
+					okV = nonNilPath(fx.path(v)) || !isNilable(v.Type())
+				case *ssa.Const:
+					okV = !isNilConst(v)
+				default:
+					okV = true
+				}
+				if !okV {
+					bad = fmt.Sprintf("%s returns a provider whose %s.%s can be nil (%s at %s): the handlers dereference it without a test", ck, g.base, g.field, atomsString(p.Atoms), w.InstrPos(p.Ret))
+				}
+			}
+			if !conditional && bad == "" {
+				continue // filled exactly once on every path: plain initialisation, nothing to establish
+			}
+			r.Check(bad == "" && nSucc > 0, "R-NIL-INV", ck+":"+g.base+"."+g.field, w.FnPos(fn), "non-nil on every path that returns a provider", bad)
+		}
+	}
+}
+
 func checkC09(cx *Ctx, r *Report) {
 	w, fx := cx.W, cx.Fx
 	r.Clauses = []string{
@@ -780,6 +889,7 @@ func checkC09(cx *Ctx, r *Report) {
 	// constructor invariant of registered providers
 	nc.spInvOK = cx.checkSPInvariant(r)
 	nc.cfgInvOK = cx.checkConfigInvariant(r)
+	cx.checkConstructedNonNil(r)
 	nc.computeChainFacts(r)
 	nc.checkChainAssignments(r)
 	// sibling results of a failed call are not used: the failing branch leaves (R-ERR; R-NIL relies on it when it
